@@ -59,4 +59,15 @@ func init() {
 		},
 		Components: libComponents, QuickMS: 15000, ThoroughMS: 600000,
 	}
+	cfgs["C20"] = &propCfg{
+		ID: "C20", Engine: "cli", Level: "fault_enumeration",
+		Rule: "scenario = (directory tree; invocation shape in {in-place file, in-place directory -r, in-place bundle, separate file, separate directory, sync to directory, sync in place, symlink alias of input/destination, hard-link alias, stdin to file}; file types and sizes incl. empty, rejected-by-library and >32KiB; worker schedule tape). A fault-free run of the real cmd/minify records the operation trace (K operations); then the child is re-run on a rebuilt tree and SIGKILLed before EVERY operation that follows a mutating operation (rename, open-with-truncate, write, remove, mkdir, chmod, chown, chtimes, symlink; disk states between two non-mutating operations are identical), plus the completed run, and every file write is additionally torn at prefix lengths 1, n/2, n-1. Each disk image is judged by the property's disjunction. evaluations = disk images examined (+1 fault-free run per scenario); distinct_nontrivial = images taken after at least one mutating operation; exhaustive = every such boundary of every explored scenario was examined.",
+		Assumptions: []string{
+			"crash model is process kill (the property's): the page cache survives, so 'durable' = 'the call returned', plus torn writes; power loss is out of scope",
+			"the crashing operation k is the same operation in every re-run because the worker schedule is on the tape; the prefix of the crash run's trace is compared with the fault-free trace and a divergence aborts the check with exit 2",
+			"for symlink/hard-link aliases of input and destination the property's path and .bak sibling range over both names",
+			"expected new output = library call of the same tree (original bytes when the library rejects the input)",
+		},
+		Components: cliComponents, QuickMS: 40000, ThoroughMS: 1500000,
+	}
 }
